@@ -83,6 +83,17 @@ class OutArray(object):
                 raise pysym.SymRaise('ValueError', ('operands could not be broadcast together: slice of length %s, value of length %s' % (ln, v.n),), node)
         self.stores.append((k, v, '+=', list(interp.path.conds), node.lineno, tuple(g.var for g in interp.generic)))
 
+    def sym_augassign(self, interp, op, v, node):
+        # whole-array in-place update  arr += value  (numpy: shapes must agree)
+        if op != 'Add' or not isinstance(v, RowComb):
+            raise CheckerError('line %d: whole-array update of an output array with %s %r' % (node.lineno, op, type(v).__name__))
+        ln = self.length if isinstance(self.length, P) else P.const(self.length)
+        c = pysym.compare('==', ln, v.n)
+        if not interp.truth(c):
+            raise pysym.SymRaise('ValueError', ('operands could not be broadcast together: array of length %s, value of length %s' % (ln, v.n),), node)
+        self.stores.append((slice(None), v, '+=', list(interp.path.conds), node.lineno, tuple(g.var for g in interp.generic)))
+        return self
+
     def sym_load(self, interp, k, node):
         fill = getattr(self, 'fill', None)
         if fill is not None:
